@@ -184,13 +184,35 @@ def paths(facts, mgr, method):
 def default_vars(facts, mgr):
     """Pre-allocated bindings and start index from Default::default."""
     k = "<%s as Default>::default" % mgr
-    rows = codegen.run(facts, k)
+    if k not in facts.fns:
+        # #[derive(Default)]: every field starts from its type's default
+        v = emit.Interp(facts).derived_default(mgr)
+        if v is None:
+            raise F.AnchorMissing("%s has neither a Default impl nor a derived one" % mgr)
+        rows = [(None, v)]
+    else:
+        rows = codegen.run(facts, k)
     if len(rows) != 1:
         raise F.AnchorMissing("%s is not a single struct literal" % k)
     st, v = rows[0]
     if v.get("v") != "struct":
         raise F.AnchorMissing("%s does not return a struct literal" % k)
-    fields = v["fields"]
+    # fields by role: nested state structs are flattened and renamed through the manager's layout
+    from . import mgrstate
+
+    lay = mgrstate.layout(facts, mgr)
+
+    def flat(val, prefix=""):
+        out = {}
+        for fname, fv in val["fields"].items():
+            path = prefix + fname
+            if isinstance(fv, dict) and fv.get("v") == "struct" and any(q.startswith(path + ".") for q in lay["paths"]):
+                out.update(flat(fv, path + "."))
+            else:
+                out[lay["alias"].get(path, path)] = fv
+        return out
+
+    fields = flat(v)
     start = fields.get("var_index", {}).get("n")
     vars_ = []
     lst = fields.get("vars")
